@@ -17,33 +17,18 @@ theorem runR_eq (f : Frame) (ops : List OpR) : runR f ops = run f (ops.map OpR.t
 
 /-- an accepted creation from a structured array is the creation from its records taken apart by position -/
 theorem createWithRec_ok {cols : List (String × ColType)} {r : RecArray} {f : Frame}
-    (h : createWithRec cols r = .ok f) : createWith cols (some r.tuples) = .ok f := by
-  unfold createWithRec at h
-  split at h
-  · rename_i hr
-    simpa [RecArray.tuples, hr] using h
-  · split at h
-    · cases h
-    · split at h
-      · cases h
-      · exact h
+    (h : createWithRec cols r = .ok f) : createWith cols (some r.tuples) = .ok f := h
 
-/-- another number of fields than there are columns is refused (for at least one record) -/
-theorem createWithRec_count {cols c : List (String × ColType)} {r : RecArray} (hr : r.rows ≠ [])
-    (hc : mkDtype cols = .ok c) (hn : r.fields.length ≠ c.length) : createWithRec cols r = .error .typeError := by
-  unfold createWithRec
-  split
-  · rename_i h; exact absurd h hr
-  · simp [hc, hn]
-
-/-- with as many fields as columns the structured array is converted exactly like the list of its tuples -/
-theorem createWithRec_eq {cols c : List (String × ColType)} {r : RecArray}
-    (hc : mkDtype cols = .ok c) (hn : r.fields.length = c.length) :
-    createWithRec cols r = createWith cols (some r.tuples) := by
-  unfold createWithRec
-  split
-  · rename_i h; simp [RecArray.tuples, h]
-  · simp [hc, hn]
+/-- a record with another number of cells than there are columns is refused -/
+theorem createWithRec_count {cols c : List (String × ColType)} {r : RecArray}
+    (hc : mkDtype cols = .ok c) (hn : ∃ row ∈ r.rows, row.length ≠ c.length) :
+    ∃ e, createWithRec cols r = .error e := by
+  unfold createWithRec createWith
+  simp only [hc]
+  have hl : (c.map (·.2)).length = c.length := by simp
+  obtain ⟨e, he⟩ := convRows_err_of_badlen (ts := c.map (·.2)) (rows := r.tuples)
+    (by simpa [RecArray.tuples, hl] using hn)
+  exact ⟨e, by simp [he]⟩
 
 theorem createNamesTypesRec_ok {names : List String} {types : List ColType} {r : RecArray} {f : Frame}
     (h : createNamesTypesRec names types r = .ok f) : createNamesTypes names types (some r.tuples) = .ok f := by
